@@ -29,6 +29,34 @@ def every_term_has_index(expression: sugar.Expression, index: str) -> bool:
             return False
 
 
+def expand_products(expression: sugar.Expression) -> list[tuple[int, sugar.Expression]]:
+    """Expand an expression into a sum of signed products by distributing multiplication."""
+    match expression:
+        case sugar.Add():
+            return expand_products(expression.left) + expand_products(expression.right)
+        case sugar.Subtract():
+            return expand_products(expression.left) + [
+                (-sign, term) for sign, term in expand_products(expression.right)
+            ]
+        case sugar.Multiply():
+            return [
+                (left_sign * right_sign, sugar.Multiply(left_term, right_term))
+                for left_sign, left_term in expand_products(expression.left)
+                for right_sign, right_term in expand_products(expression.right)
+            ]
+        case _:
+            return [(1, expression)]
+
+
+def distribute(expression: sugar.Multiply) -> sugar.Expression:
+    """Rewrite a product of sums as the equivalent sum of products."""
+    (first_sign, first_term), *rest = expand_products(expression)
+    output = first_term if first_sign > 0 else sugar.Multiply(sugar.Integer(-1), first_term)
+    for sign, term in rest:
+        output = sugar.Add(output, term) if sign > 0 else sugar.Subtract(output, term)
+    return output
+
+
 @singledispatch
 def desugar_expression(
     self: sugar.Expression, contract_indexes: set[str], ids: Iterator[int]
@@ -119,6 +147,14 @@ def desugar_multiply(
     right_indexes = set(self.right.index_participants().keys()).intersection(contract_indexes)
 
     intersection_indexes = left_indexes.intersection(right_indexes)
+
+    for index in intersection_indexes:
+        if not every_term_has_index(self.left, index) and not every_term_has_index(
+            self.right, index
+        ):
+            # Both factors are sums with a term that lacks the contracted index, so the product has
+            # a term that must not be summed over it. Contract each product of the expansion alone.
+            return desugar_expression(distribute(self), contract_indexes, ids)
 
     output = desugar.Multiply(
         desugar_expression(self.left, left_indexes - intersection_indexes, ids),
